@@ -95,15 +95,11 @@ impl From<ctap2::StatusCode> for WebauthnError {
     }
 }
 
-/// Returns a decoded [String] if the domain name is punycode otherwise
-/// the original string reference [str] is returned.
+/// Returns the domain name in the form the public suffix list is looked up with: lower case
+/// ASCII with internationalized labels in punycode. Returns `None` if it is not a valid
+/// (punycode) domain name.
 fn decode_host(host: &str) -> Option<Cow<str>> {
-    if host.split('.').any(|s| s.starts_with("xn--")) {
-        let (decoded, result) = idna::domain_to_unicode(host);
-        result.ok().map(|_| Cow::from(decoded))
-    } else {
-        Some(Cow::from(host))
-    }
+    idna::domain_to_ascii(host).ok().map(Cow::from)
 }
 
 /// Returns whether `rp_id` is `host` itself or a suffix of it that starts at a label boundary,
